@@ -153,3 +153,9 @@ package sql
 
 // "the column compared is the day column of an index table"
 //@ spec fn isDateCol(x SQLObject) bool = typeis(x, "*RawObject") && unbox(x, "*RawObject").val == "date"
+
+// Request strings reach the statement text only as operands of the formatting
+// functions: in every package that renders SQL, every format string is a constant of
+// the program (one obligation per call site; a function that forwards its own
+// parameter as the format is a formatting function too and its callers are checked).
+//@ sweep constfmt [C10] github.com/metrico/qryn/reader/utils/sql_select github.com/metrico/qryn/reader/logql/logql_transpiler_v2/clickhouse_planner github.com/metrico/qryn/reader/logql/logql_transpiler_v2/shared github.com/metrico/qryn/reader/logql/logql_transpiler_v2 github.com/metrico/qryn/reader/traceql/transpiler/clickhouse_transpiler github.com/metrico/qryn/reader/traceql/transpiler github.com/metrico/qryn/reader/prof/transpiler github.com/metrico/qryn/reader/prof github.com/metrico/qryn/reader/promql/transpiler github.com/metrico/qryn/reader/tempo github.com/metrico/qryn/reader/service
